@@ -704,3 +704,19 @@ def pseudo_canonical(rng, psi, how=None):
                     A[tuple(sl)] = A[tuple(sl)] / n
         psi.A[i] = A
     return how
+
+
+def partially_shared_mps(rng, psi, nrep=None):
+    """A second state that SHARES most site-tensor arrays by reference with `psi` (built from list(psi.A), like a correlator bra <psi| S_j S_k) and has
+    new random tensors of the same sparsity pattern on one or two sites. Returns (chi, replaced sites)."""
+    L = len(psi.A)
+    chi = ptn.MPS(psi.qd, [np.array(q, copy=True) for q in psi.qD], fill='postpone')
+    chi.A = list(psi.A)
+    k = int(rng.integers(1, min(L, 2) + 1)) if nrep is None else nrep
+    sites = sorted(int(x) for x in rng.choice(L, size=min(k, L), replace=False))
+    for i in sites:
+        a = np.asarray(psi.A[i])
+        mask = np.add.outer(np.add.outer(np.asarray(psi.qd), np.asarray(psi.qD[i])), -np.asarray(psi.qD[i + 1])) == 0
+        new = rng.normal(size=a.shape) + 1j * rng.normal(size=a.shape)
+        chi.A[i] = np.where(mask, new, 0) / np.sqrt(max(a.shape[0] * a.shape[1], 1))
+    return chi, sites
